@@ -1562,14 +1562,19 @@ impl SystemState {
         match target.0 {
             0 => todo!("wait target {}", target),
             -1 => {
-                // any child
-                let mut result = None;
+                // any child, preferring one whose state has changed and then
+                // one that is still alive to one that has already been reaped
+                let mut result: Option<(Pid, &mut Process)> = None;
                 for (pid, process) in &mut self.processes {
                     if process.ppid == parent_pid {
-                        let changed = process.state_has_changed();
-                        result = Some((*pid, process));
-                        if changed {
-                            break;
+                        if process.state_has_changed() {
+                            return Some((*pid, process));
+                        }
+                        let result_is_alive = result
+                            .as_ref()
+                            .is_some_and(|(_, process)| process.state().is_alive());
+                        if !result_is_alive {
+                            result = Some((*pid, process));
                         }
                     }
                 }
